@@ -2,7 +2,8 @@
 jsonargparse Path(given, mode=...) in a child process (optionally after dropping to uid nobody, since root
 bypasses the permission bits), next to an independent os.stat/os.access probe of the same path.
 
-stdin : {"cases": [{"mode":..., "kind":..., "spell": "abs"|"rel"|"dotrel", "cwd": "w"|"wd"|"ro", "uid": "root"|"nobody"}]}
+stdin : {"cases": [{"mode":..., "kind":..., "spell": "abs"|"rel"|"dotrel", "cwd": "w"|"wd"|"ro", "uid": "root"|"nobody",
+                    "via": "path"|"type"}]}   (via type: path_type(mode)(given) instead of Path(given, mode=mode))
 stdout: one JSON list, per case {"given","cwd","home","facts",{...},"obs":{...}} with the fixture root written as /B.
 """
 import json
@@ -149,6 +150,7 @@ def probe(abs_path):
 def run_cases(base, cases):
     from jsonargparse import Path
     from jsonargparse._util import PathError
+    from jsonargparse.typing import path_type
 
     home = os.path.join(base, "home")
     os.environ["HOME"] = home
@@ -164,7 +166,10 @@ def run_cases(base, cases):
         abs_path = expanded if os.path.isabs(expanded) else os.path.join(cwd, expanded)
         facts = probe(abs_path)
         try:
-            p = Path(given, mode=case["mode"])
+            if case.get("via") == "type":  # through the registered path type (typing.py: path_type, Path_fr, ...)
+                p = path_type(case["mode"])(given)
+            else:
+                p = Path(given, mode=case["mode"])
             obs = {"ok": [canon(p.relative), canon(p.absolute)]}
         except PathError:
             obs = {"err": "path"}
